@@ -497,17 +497,32 @@ Proof.
   all: clear Hle Hx Hb; Z.div_mod_to_equations; lia.
 Qed.
 
+(* the lists are lists of bytes, and the little-endian list is the big-endian one reversed (for any x) *)
+Definition byte (x : Z) : Prop := 0 <= x < 256.
+Lemma raw_bytes_shape w x : bytes_wf w = true ->
+  Forall byte (raw_to_be_bytes w x) /\ raw_to_le_bytes w x = rev (raw_to_be_bytes w x).
+Proof.
+  unfold bytes_wf. intros H.
+  repeat (apply orb_prop in H; destruct H as [H | H]);
+    apply shape_is_eq in H; destruct H as (Hs & Hn & Hbl & Hbh & Hll & Hlh & Hb);
+    unfold raw_to_be_bytes, raw_to_le_bytes; rewrite ?Hs, ?Hn, ?Hbl, ?Hbh, ?Hll, ?Hlh;
+    bytes_compute; (split; [|reflexivity]);
+    repeat (apply Forall_cons; [apply Z.mod_pos_bound; reflexivity|]); apply Forall_nil.
+Qed.
+
 Lemma bytes_agree_wf t : row_wf t = true -> bytes_wf (c_raw t) = true -> forall c, valid t c ->
   be_value (to_be_bytes t c) = into_storage t c /\
   le_value (to_le_bytes t c) = into_storage t c /\
   into_storage t c = to_raw t c /\
   Z.of_nat (length (to_be_bytes t c)) = raw_nbytes (c_raw t) /\
   Z.of_nat (length (to_le_bytes t c)) = raw_nbytes (c_raw t) /\
-  8 * (raw_nbytes (c_raw t) - 1) < bpp t <= 8 * raw_nbytes (c_raw t).
+  8 * (raw_nbytes (c_raw t) - 1) < bpp t <= 8 * raw_nbytes (c_raw t) /\
+  Forall byte (to_be_bytes t c) /\ to_le_bytes t c = rev (to_be_bytes t c).
 Proof.
   intros H Hb c Hv. unfold to_be_bytes, to_le_bytes, into_storage.
   destruct (raw_fits_wf t H c Hv) as [Hf _].
-  pose proof (raw_bytes_agree (c_raw t) (to_raw t c) Hb Hf). unfold bpp. tauto.
+  pose proof (raw_bytes_agree (c_raw t) (to_raw t c) Hb Hf).
+  pose proof (raw_bytes_shape (c_raw t) (to_raw t c) Hb). unfold bpp. tauto.
 Qed.
 
 (* ================================================================= 8. C12 over the regenerated table *)
@@ -523,6 +538,14 @@ Proof. intros t Ht. apply raw_fits_wf, in_table_wf, Ht. Qed.
 
 Lemma c12_from_raw_valid : forall t, In t color_table -> forall v, valid t (from_raw t (raw_new t v)).
 Proof. intros t Ht. apply from_raw_valid_wf, in_table_wf, Ht. Qed.
+
+(* #[derive(Default)] / BinaryColor::default(): the all-zero value is a colour of every type, and it is BLACK / Off *)
+Lemma c12_default_valid : forall t, In t color_table -> valid t 0 /\ color_black t = 0.
+Proof.
+  intros t Ht. pose proof (used_le_bpp t (in_table_wf t Ht)). split.
+  - unfold valid. pose proof (pow2_pos (used_bits t)). lia.
+  - clear H. revert t Ht. apply Forall_forall. vm_compute. repeat constructor.
+Qed.
 
 Lemma c12_raw_idem : forall t, In t color_table -> forall v,
   let d := to_raw t (from_raw t (raw_new t v)) in
@@ -569,7 +592,8 @@ Lemma c12_bytes_agree : forall t, In t color_table -> forall c, valid t c ->
   into_storage t c = to_raw t c /\
   Z.of_nat (length (to_be_bytes t c)) = raw_nbytes (c_raw t) /\
   Z.of_nat (length (to_le_bytes t c)) = raw_nbytes (c_raw t) /\
-  8 * (raw_nbytes (c_raw t) - 1) < bpp t <= 8 * raw_nbytes (c_raw t).
+  8 * (raw_nbytes (c_raw t) - 1) < bpp t <= 8 * raw_nbytes (c_raw t) /\
+  Forall byte (to_be_bytes t c) /\ to_le_bytes t c = rev (to_be_bytes t c).
 Proof. intros t Ht. apply bytes_agree_wf; [apply in_table_wf, Ht | apply in_table_bytes_wf, Ht]. Qed.
 
 (* BinaryColor: Off <-> raw 0, On <-> raw 1, any non-zero raw is On *)
